@@ -277,16 +277,35 @@ macro_rules | `(tactic| krel_step) => `(tactic| with_reducible apply KRel.guardR
 theorem KRel.frontStep {w0 w : World} (h : KRel S w0 w) (g : Nat) (gd : Guard) : KRel S w0 (frontStep w g gd) := by
   unfold S3.frontStep; krel
 
-theorem KRel.guardSignal' : ∀ (fuel : Nat) (w : World) (g : Nat), KRel S w (guardSignal fuel w g) := by
+theorem KRel.condSignal_fst {w0 w : World} (h : KRel S w0 w) (g : Nat) : KRel S w0 (condSignal w g).1 := by
+  simp only [Sim.condSignal]
+  split
+  · exact h
+  · split
+    · exact h
+    · refine KRel.foldl (fun w q => by krel) _ ?_
+      exact KRel.foldl (fun w q => by krel) _ h
+macro_rules | `(tactic| krel_step) => `(tactic| with_reducible apply KRel.condSignal_fst)
+
+theorem KRel.ownStep {w0 w : World} (h : KRel S w0 w) (fwd : Bool) (g : Nat) (gd : Guard) : KRel S w0 (ownStep fwd w g gd) := by
+  unfold S3.ownStep
+  split
+  · exact h.condSignal_fst g
+  · exact h.frontStep g gd
+
+theorem KRel.guardSignalF' : ∀ (fuel : Nat) (fwd : Bool) (w : World) (g : Nat), KRel S w (guardSignalF fwd fuel w g) := by
   intro fuel
   induction fuel with
-  | zero => intro w g; rw [guardSignal_zero]; exact (KRel.refl w).fail _
+  | zero => intro fwd w g; rw [guardSignalF_zero]; exact (KRel.refl w).fail _
   | succ fuel ih =>
-    intro w g
-    rw [guardSignal_succ]
+    intro fwd w g
+    rw [guardSignalF_succ]
     split
     · exact KRel.refl w
-    · exact KRel.foldl (fun w o => ih w o) _ ((KRel.refl w).frontStep g _)
+    · exact KRel.foldl (fun w o => ih true w o) _ ((KRel.refl w).ownStep fwd g _)
+
+theorem KRel.guardSignal' (fuel : Nat) (w : World) (g : Nat) : KRel S w (guardSignal fuel w g) :=
+  KRel.guardSignalF' fuel false w g
 
 theorem KRel.guardSignal {w0 w : World} (h : KRel S w0 w) (fuel : Nat) (g : Nat) : KRel S w0 (guardSignal fuel w g) :=
   h.trans (KRel.guardSignal' fuel w g)
@@ -431,15 +450,6 @@ theorem KRel.pqPutLoop_fst {w0 w : World} (h : KRel S w0 w) (p : Pid) (k obj : N
   simp only [Sim.pqPutLoop]; krel
 macro_rules | `(tactic| krel_step) => `(tactic| (with_reducible refine KRel.pqPutLoop_fst ?_ _ _ _ _ _ (by assumption)))
 
-theorem KRel.condSignal_fst {w0 w : World} (h : KRel S w0 w) (g : Nat) : KRel S w0 (condSignal w g).1 := by
-  simp only [Sim.condSignal]
-  split
-  · exact h
-  · split
-    · exact h
-    · refine KRel.foldl (fun w q => by krel) _ ?_
-      exact KRel.foldl (fun w q => by krel) _ h
-macro_rules | `(tactic| krel_step) => `(tactic| with_reducible apply KRel.condSignal_fst)
 
 theorem KRel.acquireStep_fst {w0 w : World} (h : KRel S w0 w) (p : Pid) (r : Nat) : KRel S w0 (acquireStep w p r).1 := by
   simp only [Sim.acquireStep]; krel
